@@ -292,6 +292,10 @@ func (c *updater) buildBackendAuthHTTP(d *backData) {
 		secretName := authSecret.Value
 		if !strings.Contains(secretName, "/") {
 			secretName = authSecret.Source.Namespace + "/" + secretName
+		} else if !strings.HasPrefix(secretName, authSecret.Source.Namespace+"/") && !c.options.DynamicConfig.CrossNamespaceSecretPasswd {
+			// an userlist already created from the other namespace cannot be reused
+			c.logger.Error("error reading basic authentication on %v: trying to read secret '%s' cross namespaces, but cross-namespace reading is disabled", authSecret.Source, secretName)
+			continue
 		}
 		listName := strings.Replace(secretName, "/", "_", 1)
 		userlist := c.haproxy.Userlists().Find(listName)
